@@ -335,12 +335,12 @@ def loadManager (f : ManagerFile) : Except Err Mgr :=
     let term : PEntry := ⟨1, f.vars.length, none, none⟩
     if !(f.succ.filter (fun e => e.nd?.isNone) == [term]
          && f.pred.filter (fun e => e.nd?.isNone) == [term]) then .error .other else
+    -- `bdd._pred = d['pred']` etc.: the unpickled dicts replace the constructor's
     .ok { m with
       roots := f.roots
-      pred := (f.pred.filterMap PEntry.nd?).foldl (fun acc (u, n) => acc.insert n.key u) {}
-      tbl := { m.tbl with
-        succ := (f.succ.filterMap PEntry.nd?).foldl (fun acc (u, n) => acc.insert u n) {} }
-      ref := f.ref.foldl (fun acc (u, c) => acc.insert u c) {}
+      pred := TreeMap.ofList ((f.pred.filterMap PEntry.nd?).map fun (u, n) => (n.key, u))
+      tbl := { m.tbl with succ := TreeMap.ofList (f.succ.filterMap PEntry.nd?) }
+      ref := TreeMap.ofList f.ref
       minFree := f.minFree }
 
 /-! ### JSON: `_copy.dump_json` through the `Function` interface -/
